@@ -44,6 +44,21 @@ def eval_case(case):
                 if df:
                     out.append(O.V("(f) deleting the project-wide absence steps does not give the result of simulating without absence",
                                    "C10/f-fifo" if op.get("rule") == 4 else "C10/f", {"diff": df[:4], "abs": op["abs"], "rule": op.get("rule")}))
+    # a later run on the same object that leaves the auto-task flag (or the absence list) at its
+    # default must behave as the default says, whatever the previous run used
+    if rec["exc"] is None and (op.get("auto_abs") or op.get("abs")):
+        for omit in (["perform_auto_task_while_absence_time"], ["absence_time_list"]):
+            if (omit[0] == "absence_time_list" and not op.get("abs")) or (omit[0] != "absence_time_list" and not op.get("auto_abs")):
+                continue
+            op2 = dict(op, omit=omit)
+            bA, trA = sim.run_ops(case, want_snaps=False, ops=[op2], built=b)
+            bB, trB = sim.run_ops(case, want_snaps=False, ops=[op2])
+            if trA[0]["exc"] is None and trB[0]["exc"] is None:
+                df = O.dump_diff(trA[0]["dump"], trB[0]["dump"])
+                if df:
+                    out.append(O.V("a run that leaves %s at its default inherits the previous run's setting" % omit[0],
+                                   "C10/default-inherits", {"diff": df[:3], "omit": omit}))
+            b = bA
     from .. import modelrun
     return {"violations": out, "disagreements": modelrun.compare(case, trace, modelrun.FULL), "sig": simcheck.behaviour_sig(S, trace) + (deleted, tuple(sorted(set(op.get("abs", []))))[:4]),
             "hist": dict(simcheck.base_hist(S, trace), deletion_checked=int(deleted)),
